@@ -1,4 +1,6 @@
 import Hyeong.Lemmas.DbgRun
+import Hyeong.Lemmas.DbgQuiet
+import Hyeong.Lemmas.WorldSim
 /-!
 # C11 — the debugger shows the true state, steps back exactly, and never crashes
 
@@ -88,10 +90,50 @@ theorem run_stops_first_bp (fname : List Char) (pcode : List PCmd) (code : List 
   simp only [hh, h1, ↓reduceIte, hr]
   split <;> rfl
 
-/-- output is shown exactly once: flushing prints the two buffers and empties them; a step only
-appends to them (the buffers it starts from are a prefix of the buffers it ends with) -/
-theorem output_once (d : Dbg N) :
-    (flushBufs d).2 = showBuffers d.bufO d.bufE ∧ (flushBufs d).1.bufO = [] ∧ (flushBufs d).1.bufE = [] ∧
-    (flushBufs d).1.hist = d.hist := ⟨rfl, rfl, rfl, rfl⟩
+/-- Every character the program writes is shown exactly once, in order — the four facts that say so:
+
+1. *nothing is pending at a prompt*: whenever the debugger is not running, both output buffers are empty;
+   every loop iteration preserves this (`QuietD`), and the session starts that way;
+2. *a command appends exactly its own output*: executing one command (`next`, `run`, while running) extends
+   each buffer by precisely the text that command writes — the buffers it starts from are carried along
+   unchanged (framing), nothing is dropped or repeated;
+3. *every return to the prompt shows everything*: `next` prints the two buffers completely right after the
+   command and clears them; a breakpoint stop does the same (`run_stops_first_bp`);
+4. *so does the end*: when the program has finished, the remaining buffers are printed before the session ends. -/
+theorem output_once (fname : List Char) (pcode : List PCmd) (code : List Cmd) :
+    -- 1
+    (QuietD (⟨[⟨St.init, 0, []⟩], [0], false, [], []⟩ : Dbg N) ∧
+      ∀ lines (d : Dbg N), QuietD d → ∀ lines' d' t, dbgTrans fname pcode code lines d = .cont lines' d' t → QuietD d') ∧
+    -- 2
+    (∀ rest (d d' : Dbg N), dbgStep code rest d = .ok d' →
+      ∃ sn c r, d.hist.head? = some sn ∧ code[sn.loc]? = some c ∧
+        stepCmd (sn.st, (⟨rest, [], []⟩ : World)) c sn.loc = .ok r ∧
+        d'.bufO = d.bufO ++ r.1.2.out ∧ d'.bufE = d.bufE ++ r.1.2.err) ∧
+    -- 3
+    (∀ l rest (d : Dbg N) sn older, d.hist = sn :: older → sn.loc < code.length → d.running = false →
+      (splitSpaces (trim l)).headD [] = "n".toList → ∀ pc, pcode[sn.loc]? = some pc → ∀ d2, dbgStep code rest d = .ok d2 →
+      dbgTrans fname pcode code (l :: rest) d =
+        .cont rest (flushBufs d2).1 (prompt ++ listing fname [(sn.loc, pc)] ++ showBuffers d2.bufO d2.bufE) ∧
+      (flushBufs d2).1.bufO = [] ∧ (flushBufs d2).1.bufE = []) ∧
+    -- 4
+    (∀ lines (d : Dbg N) sn older, d.hist = sn :: older → sn.loc ≥ code.length →
+      dbgTrans fname pcode code lines d = .done (showBuffers d.bufO d.bufE) (.exit 0)) := by
+  refine ⟨⟨fun _ => ⟨rfl, rfl⟩, fun lines d hq lines' d' t h => dbgTrans_quiet fname pcode code lines d hq lines' d' t h⟩, ?_,
+    fun l rest d sn older hh hl hr hcmd pc hpc d2 hs => ⟨next_shows fname pcode code l rest d sn older hh hl hr hcmd pc hpc d2 hs, rfl, rfl⟩,
+    fun lines d sn older hh hl => end_flushes fname pcode code lines d sn older hh hl⟩
+  intro rest d d' hs
+  obtain ⟨_, _, sn, c, r, h1, h2, h3, h4, h5⟩ := dbgStep_appends code rest d d' hs
+  -- framing: the same command from empty buffers writes the same text
+  have hw := stepCmd_w (frameSim d.bufO d.bufE) (a := ((sn.st, (⟨rest, [], []⟩ : World)) : M N))
+    (b := (sn.st, (⟨rest, d.bufO, d.bufE⟩ : World))) ⟨rfl, by simp [addPre]⟩ c sn.loc
+  cases h0 : stepCmd ((sn.st, (⟨rest, [], []⟩ : World)) : M N) c sn.loc with
+  | error e => rw [h0, h3] at hw; cases hw
+  | ok r0 =>
+    rw [h0, h3] at hw
+    cases hw with
+    | ok hq =>
+      refine ⟨sn, c, r0, h1, h2, h0, ?_, ?_⟩
+      · rw [h4]; have := hq.1.2; simp only [addPre] at this; rw [this]
+      · rw [h5]; have := hq.1.2; simp only [addPre] at this; rw [this]
 
 end HyE.C11
